@@ -81,11 +81,15 @@ impl<S: Stream> Stream for MergeBounded<S> {
                     unsafe {
                         self.streams.shared.push(i);
                     }
+                    #[cfg(futures_buffered_verif)]
+                    crate::verif::hit(crate::verif::Hit::MergeRearmed);
                     break Poll::Ready(Some(x));
                 }
                 // if a stream completed, remove it from the queue
                 Poll::Ready(Some((i, None))) => {
                     self.streams.tasks.remove(i);
+                    #[cfg(futures_buffered_verif)]
+                    crate::verif::hit(crate::verif::Hit::MergeSourceRemoved);
                 }
                 Poll::Pending => break Poll::Pending,
                 Poll::Ready(None) => break Poll::Ready(None),
